@@ -281,7 +281,7 @@ func c15Mint(c *Ctx) {
 		}
 		rk := fmt.Sprintf("%s return#%d", key, i)
 		good, msg := true, ""
-		for _, o := range origins(r.Results[0]) {
+		for _, o := range c.originsDeep(r.Results[0], 0) {
 			if o.Kind != "call" || !strings.HasSuffix(calleeName(o.Call), ".Serialize") {
 				good, msg = false, "returned token is "+o.String()
 				break
@@ -516,11 +516,28 @@ func c15ConfigKeys(c *Ctx) {
 				n++
 				c.Bad(rule, "store "+p+" in "+shortFn(f), s.Pos(), "config.Load rewrites the configured user-token signing key: the verifier's key mode no longer follows the configuration (an emptied key means encrypt-only tokens verify)")
 			case "Security.UserTokenEncryptionKey":
-				ex, isEx := strip(s.Val).(*ssa.Extract)
-				fresh := false
-				if isEx {
-					if call, ok := ex.Tuple.(*ssa.Call); ok && calleeName(call) == secPkgPath+".GenerateRandomString" {
-						fresh = true
+				fresh := c.freshRandomKey(s.Val, 1)
+				if !fresh {
+					// Conf.key = ensureKey(Conf.key, ...): the configured key handed back, or a fresh one
+					if call, isCall := strip(s.Val).(*ssa.Call); isCall {
+						if h := call.Call.StaticCallee(); h != nil && IsFirstParty(h) && h.Blocks != nil {
+							all := true
+							for _, r := range returnsOf(h) {
+								rv0 := strip(unspill(r.Results[0]))
+								isParamBack := false
+								for j, q := range h.Params {
+									if rv0 == ssa.Value(q) && j < len(call.Call.Args) {
+										if ap, ok := confVarPath(call.Call.Args[j], "Conf"); ok && ap == p {
+											isParamBack = true
+										}
+									}
+								}
+								if !isParamBack && !c.freshRandomKey(rv0, 1) {
+									all = false
+								}
+							}
+							fresh = all
+						}
 					}
 				}
 				n++
